@@ -2,9 +2,15 @@
    list, prod, unit, sumbool map to OCaml's; Z/positive/N/nat stay inductive.
    No Extract Constant. *)
 From Coq Require Import Extraction ExtrOcamlBasic ZArith List.
-From Corro Require Import Model.Chunk.
+From Corro Require Import Lib.Ivl Model.Chunk Model.Book Model.SeqRows Model.BookOps.
 Extraction Language OCaml.
 Extraction "model.ml"
   Z.add Z.mul Z.sub Z.opp Z.div_eucl Z.of_nat Z.to_nat Z.compare Z.eqb Z.ltb Z.leb
   Chunk.run Chunk.start_cursor Chunk.next Chunk.chunk_range
-  Chunk.wf_input Chunk.check_chunks Chunk.check_chunk_range.
+  Chunk.wf_input Chunk.check_chunks Chunk.check_chunk_range
+  Ivl.ins Ivl.rem Ivl.gaps Ivl.overlapping Ivl.get Ivl.memb Ivl.canonicalb Ivl.ins_all Ivl.rem_all
+  Book.insert_db Book.insert_partial Book.contains_version Book.contains Book.contains_all
+  Book.sync_actor Book.from_conn Book.inv_b Book.is_complete Book.fully_buffered
+  SeqRows.incomplete_rows
+  BookOps.bstep BookOps.bruns BookOps.bstate_init BookOps.reload BookOps.adv_exact_b BookOps.state_ok BookOps.bv_eqb
+  BookOps.seqrows_flat.
